@@ -342,8 +342,8 @@ func (x *Exec) applyInstancesEnv(s *State, cls []*Clause, mkEnv func() *specEnv)
 		env := mkEnv()
 		t, err := env.evalBool(cl.Expr)
 		if err != nil {
-			if strings.Contains(err.Error(), "not inside that loop") {
-				continue // at(L, ..) before the first iteration of L
+			if strings.Contains(err.Error(), "not inside that loop") || strings.Contains(err.Error(), "unknown name") {
+				continue // at(L, ..) before the first iteration of L; a local not bound yet at entry
 			}
 			x.unsupported("apply %s: %v", cl.Expr, err)
 			continue
